@@ -254,6 +254,10 @@ def check(ctx):
     for st, _ in ctx.sites(dset, "self._timeout()"):
         ctx.require_at("R05-c", dset, st, [["not self._timeout_handle"], ["self._timeout_handle is None"]],
                        instance="deadline assignment re-arms only after the old timer was cancelled and forgotten", what="re-arm")
+        # ... and only while the scope is entered: a timer armed on a scope that is not (or no longer) active is not the one __enter__
+        # stores and __exit__ cancels - it stays in the loop after the block and later cancels a scope that was left (seed C05-k)
+        ctx.require_at("R05-c", dset, st, [["self._active"]],
+                       instance="deadline assignment arms a timer only on an entered scope (the one __exit__ will cancel)", what="re-arm")
     # in cancel() the timer is dropped on the path that marks the scope cancelled
     def step_k(st, e, c):
         if c.is_exc:
